@@ -146,8 +146,9 @@ MUTANTS = [
     M("cap-hash-by-identity", U,
       "        return self.to_string().__hash__()", "        return id(self)", "C21.7"),
     M("dir-verifier-eq-without-hash", U,
-      "    def get_filenode_cap(self):\n        return self._filenode_uri\n\n    def is_mutable(self):\n        return False\n\n    def is_readonly(self):\n        return True\n\n    def get_readonly(self):\n        return self\n\n\n@implementer(IVerifierURI)\nclass ImmutableDirectoryURIVerifier",
-      "    def get_filenode_cap(self):\n        return self._filenode_uri\n\n    def __eq__(self, them):\n        return isinstance(them, DirectoryURIVerifier) and self._filenode_uri == them._filenode_uri\n\n    def is_mutable(self):\n        return False\n\n    def is_readonly(self):\n        return True\n\n    def get_readonly(self):\n        return self\n\n\n@implementer(IVerifierURI)\nclass ImmutableDirectoryURIVerifier",
+      "    INNER_URI_CLASS : Type[IVerifierURI] = SSKVerifierURI\n",
+      "    INNER_URI_CLASS : Type[IVerifierURI] = SSKVerifierURI\n\n    def __eq__(self, them):\n"
+      "        return isinstance(them, DirectoryURIVerifier) and self._filenode_uri == them._filenode_uri\n",
       "C21.7"),
     # ---- gap review (mutation-sweep survivors)
     M("eq-isinstance-negated", U,
